@@ -1,0 +1,93 @@
+//go:build verif
+// +build verif
+
+package dns
+
+import (
+	"fmt"
+	"net"
+
+	"github.com/bokysan/socketace/v2/internal/streams/dns/util"
+	"github.com/miekg/dns"
+)
+
+// Verification hooks (build tag `verif` only); no production code path references them.
+
+// VerifUpstreamMtu exposes the upstream fragment size the client computes for its current
+// domain and upstream codec.
+func (dc *ClientDnsConnection) VerifUpstreamMtu() uint32 { return dc.getUpstreamMtu() }
+
+// VerifQueues exposes the client connection's queues.
+func (dc *ClientDnsConnection) VerifQueues() (*util.InQueue, *util.OutQueue) { return &dc.in, &dc.out }
+
+// VerifUserId is the session identifier the server assigned.
+func (dc *ClientDnsConnection) VerifUserId() uint16 { return dc.userId }
+
+// VerifSetUserId lets a harness forge requests for another session.
+func (dc *ClientDnsConnection) VerifSetUserId(id uint16) { dc.userId = id }
+
+// VerifOnMessage feeds one DNS message to the listener's message handler.
+func (s *ServerDnsListener) VerifOnMessage(m *dns.Msg, remote net.Addr) (*dns.Msg, error) {
+	return s.onMessage(m, remote)
+}
+
+func verifDumpUser(u *userConnection, withContact bool) string {
+	if u == nil {
+		return "-"
+	}
+	ser := u.Serializer
+	up, down := "nil", "nil"
+	if ser.Upstream.Encoder != nil {
+		up = ser.Upstream.Encoder.Name()
+	}
+	if ser.Downstream.Encoder != nil {
+		down = ser.Downstream.Encoder.Name()
+	}
+	s := fmt.Sprintf("user{id=%d remote=%v closed=%v up=%s/%d down=%s/%d lazy=%v multi=%v %s %s",
+		u.UserId, u.remoteAddress, u.closed, up, ser.Upstream.FragmentSize, down, ser.Downstream.FragmentSize,
+		ser.UseLazyMode, ser.UseMultiQuery, u.in.VerifDump(), u.out.VerifDump())
+	if withContact {
+		s += fmt.Sprintf(" last=%d", u.lastConnection.Unix())
+	}
+	return s + "}"
+}
+
+// VerifSnapshot dumps both session-slot tables (only occupied slots). The time of last
+// contact is included on request only: it legitimately changes with every valid message.
+func (s *ServerDnsListener) VerifSnapshot(withContact bool) string {
+	s.usersLock.Lock()
+	defer s.usersLock.Unlock()
+	out := "live["
+	for i, u := range s.connections {
+		if u != nil {
+			out += fmt.Sprintf("%d=%s ", i, verifDumpUser(u, withContact))
+		}
+	}
+	out += "] old["
+	for i, u := range s.oldConnections {
+		if u != nil {
+			out += fmt.Sprintf("%d=%s ", i, verifDumpUser(u, withContact))
+		}
+	}
+	return out + "]"
+}
+
+// VerifUser dumps one live slot ("-" when empty).
+func (s *ServerDnsListener) VerifUser(id uint16, withContact bool) string {
+	s.usersLock.Lock()
+	defer s.usersLock.Unlock()
+	if int(id) >= len(s.connections) {
+		return "-"
+	}
+	return verifDumpUser(s.connections[id], withContact)
+}
+
+// VerifUserConn returns the server-side connection object of a live session.
+func (s *ServerDnsListener) VerifUserConn(id uint16) net.Conn {
+	s.usersLock.Lock()
+	defer s.usersLock.Unlock()
+	if int(id) >= len(s.connections) || s.connections[id] == nil {
+		return nil
+	}
+	return s.connections[id]
+}
